@@ -36,6 +36,25 @@ CLAIMED.update({
             "File size measured as sum of on-disk block sizes; provenance relies on the harness's unique row ids.", "DESIGN.md section 5 C12"),
 })
 
+CLAIMED.update({
+    "C17": ("exploration",
+            "property-based testing (rapid): differential against an independent file-format reader written from FILE_FORMAT.md, over files produced by generated flush/merge/restart histories; round-trip of stored bytes against the harness's own json.Marshal",
+            "Every file left by a generated history is parsed by an independent reader (framing, CRCs, contiguity, region order, per-block compression/size/row count, recomputed distinct entry counts) and the public read helpers and MetaStore metadata must agree with it. Exploration.",
+            "Trusts encoding/json, klauspost snappy/zstd decoders and bits-and-blooms decoding as used by the independent reader.", "DESIGN.md section 5 C17"),
+    "C18": ("exploration",
+            "property-based testing (rapid): invariant over generated files — every entry the independent walker/tokenizer emits for a stored row must test positive in the block's and file's real filters; minmax ranges/keys and partition ids checked against the model",
+            "Coverage of all three filter kinds at both hierarchy levels, minmax ranges (math/big) and key sets, partition ids, on files from generated histories incl. merges with copied and combined blocks. Exploration; a bloom filter can mask a missing entry (half the cases use FPR<=1e-6).",
+            SEARCH_NOTE, "DESIGN.md section 5 C18"),
+    "C23": ("exploration",
+            "property-based testing (rapid): invariants over Stats() after generated queries (clean runs on generated layouts; fault and early-termination scripts), recomputed from block contents read back independently",
+            "Per-block and total accounting checked on every generated query; non-trivial cases have both skipped and processed blocks. Exploration.",
+            "'prefilter-surviving' uses the library's public EvaluateDataBlockMetadata (judged separately by C04/C02).", "DESIGN.md section 5 C23"),
+    "C24": ("exploration",
+            "property-based testing (rapid): generated layouts and queries with every DataStore call recorded by a harness-owned store wrapper; expected pruning recomputed from the real filter bits via the public read helpers",
+            "Opens and byte ranges actually read by each query are compared with what the file/block filters and the prefilter rule out, and with the extents the metadata declares; includes multi-chunk filter regions from external-writer files. Deterministic given the filter bits. Exploration.",
+            "Only pruning implied by the bloom expression and the prefilter is demanded (the regex field guard may prune more).", "DESIGN.md section 5 C24"),
+})
+
 PENDING_REASON ="check not yet built in this revision of /verif (no technical obstacle; see DESIGN.md section 5)"
 
 def main():
